@@ -109,7 +109,8 @@ class SuperNet(DNAS):
         :rtype: nn.Module
         """
         model = self.seed
-        model, _, _ = convert(model, self._input_example, 'export')
+        with self._preserve_state():
+            model, _, _ = convert(model, self._input_example, 'export')
         return model
 
     def summary(self) -> Dict[str, Dict[str, Any]]:
